@@ -2,7 +2,7 @@
    Only theorem statements here; proofs live in Proof/Range.v.
    Items are of any type A; lists are of any length; bounds are any integers
    whose decimal text strconv.Atoi accepts (hypothesis `atoi p = Some v`). *)
-From Murex Require Import Base.Outcome Base.Bytes Model.Decimal Model.Range Check.C17 Proof.Range.
+From Murex Require Import Base.Outcome Base.Bytes Model.Decimal Model.Range Check.C17 Proof.Range Proof.Range2.
 Open Scope Z_scope.
 
 (* [s..e], 1 <= s <= e: items s through e (1-based, inclusive, clipped to n) *)
@@ -73,18 +73,101 @@ Theorem C17_json_empty_selection_refuted :
 Proof. exact json_empty_selection_refuted. Qed.
 Print Assumptions C17_json_empty_selection_refuted.
 
+(* ---------- the other matchers, `![ .. ]`, the 8 / b / t flags ---------- *)
+
+(* The general machine with the index matcher and no flag is the machine above. *)
+Theorem C17_index_is_range_filter : forall rx p xs,
+  range_filter2 rx KIndex no_flags p xs = range_filter p xs.
+Proof. exact range_filter2_index. Qed.
+Print Assumptions C17_index_is_range_filter.
+
+(* `[s..e]n` and `@[s..e]`, 1 <= s <= e: the same slice counted from zero. *)
+Theorem C17_range_number_s_e : forall rx (xs : list bytes) ps pe s e,
+  atoi ps = Some s -> atoi pe = Some e -> 1 <= s <= e ->
+  range_filter2 rx KNumber no_flags (mkp ps pe false) xs = Ok (slice1 (s + 1) (e + 1) xs).
+Proof. exact range_number_s_e. Qed.
+Print Assumptions C17_range_number_s_e.
+
+(* `[a..b]s` / `[a..b]r` for ANY bounds, flags and lists (regexp.Match is the
+   parameter rx): from the first item that matches a (dropped with `e`) through
+   the first later item that matches b (dropped with `e`); `![` keeps only that
+   last item. *)
+Theorem C17_range_string_closed : forall rx f p xs,
+  range_filter2 rx KString f p xs =
+  Ok (pred_closed (bytes_eqb (rp_start p)) (bytes_eqb (rp_end p)) p (f_not f) (prep f xs)).
+Proof. exact range_string_closed. Qed.
+Print Assumptions C17_range_string_closed.
+
+Theorem C17_range_regexp_closed : forall rx f p xs,
+  range_filter2 rx KRegexp f p xs =
+  Ok (pred_closed (rx (rp_start p)) (rx (rp_end p)) p (f_not f) (prep f xs)).
+Proof. exact range_regexp_closed. Qed.
+Print Assumptions C17_range_regexp_closed.
+
+Theorem C17_range_string_a_b : forall rx a b xs, a <> [] -> b <> [] ->
+  range_filter2 rx KString no_flags (mkp a b false) xs =
+  Ok (upto_incl (bytes_eqb b) (from_first (bytes_eqb a) xs)).
+Proof. exact range_string_a_b. Qed.
+Print Assumptions C17_range_string_a_b.
+
+Theorem C17_pred_body_plain : forall A (pe : A -> bool) excl ys,
+  body pe excl true false ys = if excl then upto_excl pe ys else upto_incl pe ys.
+Proof. exact @body_plain. Qed.
+Print Assumptions C17_pred_body_plain.
+
+(* The inverse form writes nothing but the item that ends the range. *)
+Theorem C17_inverse_writes_only_end : forall A (pe : A -> bool) excl eg ys,
+  body pe excl eg true ys = if eg && negb excl then firstn 1 (from_first pe ys) else [].
+Proof. exact @body_not. Qed.
+Print Assumptions C17_inverse_writes_only_end.
+
+Theorem C17_range_not_s_e : forall rx (xs : list bytes) ps pe s e,
+  atoi ps = Some s -> atoi pe = Some e -> 1 <= s <= e ->
+  range_filter2 rx KIndex {| f_not := true; f_rmbs := false; f_blank := false; f_trim := false |}
+                (mkp ps pe false) xs
+  = Ok (firstn 1 (skipn (Z.to_nat (e - 1)) xs)).
+Proof. exact range_not_s_e. Qed.
+Print Assumptions C17_range_not_s_e.
+
+(* 8 / b / t only rewrite / drop items before the matcher sees them (when the
+   matcher does not depend on the buffered length, or the length is unchanged). *)
+Theorem C17_flags_are_preprocessing : forall rx k f p xs,
+  matcher_of rx k p (Z.of_nat (length xs)) = matcher_of rx k p (Z.of_nat (length (prep f xs))) ->
+  range_filter2 rx k f p xs =
+  range_filter2 rx k {| f_not := f_not f; f_rmbs := false; f_blank := false; f_trim := false |} p (prep f xs).
+Proof. exact flags_are_preprocessing. Qed.
+Print Assumptions C17_flags_are_preprocessing.
+
+(* Order and totality for every matcher, `![`, every flag, any parameters. *)
+Theorem C17_range2_order : forall rx k f p xs out,
+  f_rmbs f = false -> f_trim f = false ->
+  range_filter2 rx k f p xs = Ok out -> subseq out xs.
+Proof. exact range2_order. Qed.
+Print Assumptions C17_range2_order.
+
+Theorem C17_range2_total : forall rx fm k f p xs, clean (run_range2 rx fm k f p xs).
+Proof. exact run_range2_total. Qed.
+Print Assumptions C17_range2_total.
+
+(* The model's observation satisfies the predicate the check evaluates for every
+   matcher and flag combination (outside the one listed finding). *)
+Theorem C17_model_meets_spec_all : forall fm k f s e x xs,
+  classify (mk2 fm k f s e x xs) = 0%N -> spec_ok (mk2 fm k f s e x xs) = true.
+Proof. exact model_meets_spec2. Qed.
+Print Assumptions C17_model_meets_spec_all.
+
 (* Non-vacuity: "2".."3" on [a;b;c;d] gives [b;c]; spec_ok rejects an
    off-by-one slice, an inclusive result under the e flag and a reordering. *)
 Example C17_nonvacuous :
   atoi [50%N] = Some 2 /\ atoi [51%N] = Some 3 /\
   range_filter (mkp [50%N] [51%N] false) [[97%N]; [98%N]; [99%N]; [100%N]] = Ok [[98%N]; [99%N]] /\
-  spec_ok {| c_fmt := RStr; c_start := [50%N]; c_end := [51%N]; c_excl := false;
+  spec_ok {| c_fmt := RStr; c_kind := KIndex; c_flags := no_flags; c_start := [50%N]; c_end := [51%N]; c_excl := false;
              c_items := [[97%N]; [98%N]; [99%N]; [100%N]];
              c_obs := {| o_class := 0%N; o_items := [[98%N]; [99%N]; [100%N]] |} |} = false /\
-  spec_ok {| c_fmt := RStr; c_start := [50%N]; c_end := [52%N]; c_excl := true;
+  spec_ok {| c_fmt := RStr; c_kind := KIndex; c_flags := no_flags; c_start := [50%N]; c_end := [52%N]; c_excl := true;
              c_items := [[97%N]; [98%N]; [99%N]; [100%N]];
              c_obs := {| o_class := 0%N; o_items := [[98%N]; [99%N]; [100%N]] |} |} = false /\
-  spec_ok {| c_fmt := RStr; c_start := [48%N]; c_end := [53%N]; c_excl := false;
+  spec_ok {| c_fmt := RStr; c_kind := KIndex; c_flags := no_flags; c_start := [48%N]; c_end := [53%N]; c_excl := false;
              c_items := [[97%N]; [98%N]];
              c_obs := {| o_class := 0%N; o_items := [[98%N]; [97%N]] |} |} = false.
 Proof. vm_compute. repeat split; reflexivity. Qed.
